@@ -207,9 +207,33 @@ def describe_default(r):
         r["typed"], r["step"], r["seed"], r["history"][-4:-1], f, show(e), show(g))
 
 
-def ex_check(ctx, own, profile, nscripts, nsteps, rule, assumptions, module="Gen_Ex"):
+def gen_exh(ctx, depth, ranges):
+    """profile exh of Gen_Ex: all sequences of `depth' prompt lines over Gen_Ex!ExhCmds with sequence numbers in `ranges'"""
+    jobs = [dict(PROFILE="exh", EXHD=depth, EXHLO=a, EXHHI=b) for a, b in ranges]
+    out = []
+    for job, path in gen_tables(ctx, jobs, module="Gen_Ex", timeout=3000):
+        out += [json.loads(ln) for ln in open(path)]
+    return out
+
+
+NEXH = 31       # Len(Gen_Ex!ExhCmds)
+
+
+def ex_check(ctx, own, profile, nscripts, nsteps, rule, assumptions, module="Gen_Ex", exh=False):
     """the common body of the ex-mode behaviour checks"""
     scripts = gen_scripts(ctx, module, "corpus", 1, 1) + gen_scripts(ctx, module, profile, nscripts, nsteps)
+    nexh = 0
+    if exh:
+        from regexlib import split_range
+        import random
+        rng = random.Random(ctx.seed)
+        ex = gen_exh(ctx, 2, split_range(0, NEXH ** 2, NCPU))
+        if ctx.quick:
+            ex += gen_exh(ctx, 3, [(a, a + 60) for a in sorted(rng.randrange(0, NEXH ** 3 - 60) for _ in range(2 * NCPU))])
+        else:
+            ex += gen_exh(ctx, 3, split_range(0, NEXH ** 3, 4 * NCPU))
+        nexh = len(ex)
+        scripts += ex
     nthm = 0
     for sc in scripts:
         for st in sc["steps"]:
@@ -226,6 +250,7 @@ def ex_check(ctx, own, profile, nscripts, nsteps, rule, assumptions, module="Gen
     import collections
     kinds = collections.Counter(k for sc, r in zip(scripts, results) for s in sc["steps"][:r["checked"]] for k in s["kinds"])
     st["commands_by_kind"] = dict(sorted(kinds.items()))
+    st["exhaustive_scripts"] = nexh
     samples = []
     for sc, r in zip(scripts[:2], results[:2]):
         samples.append({"seed": sc["seed"], "script": [txt(s["typed"]) for s in sc["steps"][:12]],
